@@ -31,6 +31,7 @@ import (
 const (
 	c19KnownBlindedMax = "C19:blinded-htlc-max-not-enforced"
 	c19KnownBlindedLen = "C19:blinded-final-payload-underestimated"
+	c19KnownMppLen     = "C19:mpp-total-payload-underestimated"
 )
 
 // c19IsKnown: listed in known_findings.json, or (dev runs only) named in
@@ -47,12 +48,17 @@ func c19IsKnown(key string) bool {
 // estimate misses for a blinded recipient: the total_amount_msat record
 // (type, length, truncated uint64) that newRoute always attaches.
 func c19BlindedUnderestimate(total uint64) int {
+	return 2 + c19TU64Len(total)
+}
+
+// c19TU64Len is the length of a truncated uint64 (BOLT-1 tu64).
+func c19TU64Len(v uint64) int {
 	n := 0
-	for v := total; v > 0; v >>= 8 {
+	for ; v > 0; v >>= 8 {
 		n++
 	}
 
-	return 2 + n
+	return n
 }
 
 type c19Result struct {
@@ -251,6 +257,14 @@ func c19Judge(t *rapid.T, st *vstats.Collector, q *c19Query, ex c19Expect,
 				c19IsKnown(c19KnownBlindedLen):
 
 				st.Known(c19KnownBlindedLen)
+			// MPP shard: the estimate sizes the MPP record with the
+			// shard amount, the route carries the payment total.
+			case v.Rule == "onion_size" && session && q.PayAddr &&
+				f.Payload <= sphinx.MaxRoutingPayloadSize+
+					c19TU64Len(ex.TotalAmt)-c19TU64Len(ex.Amt) &&
+				c19IsKnown(c19KnownMppLen):
+
+				st.Known(c19KnownMppLen)
 			default:
 				rest = append(rest, v)
 			}
